@@ -74,7 +74,7 @@ J gen(uint64_t seed, bool thorough) {
   sc["scripted"] = scripted; sc["scripted_energy"] = std::round(r.uniform(0.5, 5) * 100) / 100; sc["scripted_force"] = std::round(r.uniform(-2, 2) * 100) / 100;
   sc["T"] = (long long)T;
   J ops = J::arr();
-  struct LiveCv { std::string name; CvSpec spec; std::pair<double, double> range; bool combo = false; };
+  struct LiveCv { std::string name; CvSpec spec; std::pair<double, double> range; bool combo = false; int tsf = 1; };
   std::vector<LiveCv> cvs; std::vector<std::string> biases;
   int ncv = 0, nb = 0, nfile = 0;
   static const char *kinds[] = {"distance", "distanceZ", "dihedral", "angle", "distanceXY"};
@@ -91,13 +91,25 @@ J gen(uint64_t seed, bool thorough) {
       double lo, hi; cv_range(c.spec, m, T, lo, hi); c.range = {lo, hi};
       if (r.chance(0.3)) c.spec.extra += "  outputAppliedForce on\n";
       if (r.chance(0.2)) c.spec.extra += "  outputTotalForce on\n";
+      // some variables are only evaluated on multiples of a time-step factor: in between they sleep and hand nothing to the engine
+      if (r.chance(0.15)) { c.tsf = (int)r.range(2, 3); c.spec.extra += "  timeStepFactor " + std::to_string(c.tsf) + "\n"; }
       op["config"] = c.spec.config(); op["ncomp"] = 1;
     }
     ops.push(op); cvs.push_back(c); sig += "C";
   };
   auto add_bias = [&]() {
     // only on catalogue variables (the combination variable gets a plain harmonic restraint)
-    std::vector<size_t> plain; for (size_t q = 0; q < cvs.size(); q++) if (!cvs[q].combo) plain.push_back(q);
+    std::vector<size_t> plain; for (size_t q = 0; q < cvs.size(); q++) if (!cvs[q].combo && cvs[q].tsf == 1) plain.push_back(q);
+    // a variable with a time-step factor gets a plain harmonic restraint with the same factor
+    { std::vector<size_t> mts; for (size_t q = 0; q < cvs.size(); q++) if (cvs[q].tsf > 1) mts.push_back(q);
+      if (!mts.empty() && r.chance(0.3)) {
+        LiveCv const &c = cvs[mts[r.below(mts.size())]];
+        J op2 = J::obj(); op2["w"] = 0; op2["op"] = "define"; op2["what"] = "bias"; op2["file"] = "def" + std::to_string(nfile++) + ".in";
+        std::string name2 = "b" + std::to_string(nb++);
+        op2["config"] = "harmonic {\n  name " + name2 + "\n  colvars " + c.name + "\n  centers " + num(std::round(0.5 * (c.range.first + c.range.second) * 100) / 100) + "\n  forceConstant " + num(std::round(r.uniform(0.5, 8) * 10) / 10) + "\n  timeStepFactor " + std::to_string(c.tsf) + "\n  outputEnergy on\n}\n";
+        op2["tmpl"] = "harm_mts"; op2["name"] = name2; ops.push(op2); sig += "M";   // (not entered in `biases`: switching a multiple-time-step bias through the script is a recorded finding, C08)
+        return;
+      } }
     J op = J::obj(); op["w"] = 0; op["op"] = "define"; op["what"] = "bias"; op["file"] = "def" + std::to_string(nfile++) + ".in";
     std::string name = "b" + std::to_string(nb++);
     if (plain.empty() || r.chance(0.2)) {
@@ -247,6 +259,11 @@ void agreement(Engine &e, Outcome &out) {
       if (!q({"cv", "colvar", nm, "gettotalforce"})) { out.fail("agreement", "query_failed/gettotalforce", at + ": " + res); return; }
       std::vector<double> ft = parse_numbers(res, &ok);
       if (ok && ft.size() == dim) for (size_t d = 0; d < dim; d++) if (!close_enough(ft[d], r.cv_ft[(size_t)r.cv_off[k] + d], 1e-12, 1e-13)) { out.fail("agreement", "totalforce", at + ": script says total force on " + nm + " = " + res + ", the module holds " + fmt_double(r.cv_ft[(size_t)r.cv_off[k] + d])); return; }
+    }
+    if (!cv->is_enabled(colvardeps::f_cv_active) && cv->get_time_step_factor() > 1) {
+      // asleep between multiples of its time-step factor: the engine receives nothing from it at this step
+      bool nz = false; for (size_t d = 0; d < dim; d++) if (fa[d] != 0.0) nz = true;
+      if (nz) { out.fail("agreement", "applied_force_reported_by_a_sleeping_variable", at + ": script says force on " + nm + " = " + res + ", but the variable is not evaluated at this step (timeStepFactor " + std::to_string(cv->get_time_step_factor()) + ") and hands nothing to the engine"); return; }
     }
     if (!cv->is_enabled(colvardeps::f_cv_apply_force) && cv->is_enabled(colvardeps::f_cv_active)) {
       bool nz = false; for (size_t d = 0; d < dim; d++) if (fa[d] != 0.0) nz = true;
@@ -470,6 +487,7 @@ Property make() {
            "component flags, delete bias/variable, a command picked from the library's command table with typed, missing, surplus, garbage or 20 kB arguments, get/set of known and unknown features, free-form garbage commands, addforce}; "
            "twin = same plan through the other route (configfile for config, save+load for savetostring+loadfromstring); non-trivial = at least one command and one step; distinct = hash of (operation-kind sequence, set of commands used)";
   p.rule += " Later additions: modifycvcs right after the definition vs. coefficients defined so; a quarter of the plans install a scripted-force callback (addenergy, addforce) in the engine.";
+  p.rule += " Fifth round: 15% of the variables have a timeStepFactor (with a restraint of the same factor); a sleeping variable must report zero applied force.";
   p.assumptions = {"agreement is checked right after each engine step, before any other command can change the module",
                    "script results carry 14 significant digits for variable values and forces (compared at 1e-12) and 6 for energies and atom forces (compared at 2e-5 / 1e-5)",
                    "commands that change what the engine owns (frame, timestep, targettemperature, molid) are issued as queries or malformed only; cv delete / reset / update are issued malformed only (their well-formed effect is covered by C13)",
